@@ -31,48 +31,57 @@ import json
 import os
 import re
 
-from fvlib.core import CFG, assignments, calls, callee_matches, callee_name, describe, switch_arms
+from fvlib.core import CFG, PLUMBING_TOKENS, family, assignments, calls, callee_matches, callee_name, describe, switch_arms
 
 TABLE = os.path.join(os.path.dirname(os.path.dirname(os.path.abspath(__file__))), "tables", "C05_gtf.json")
-NOISE = {"branch", "from_residual", "into", "from", "get", "ok_or", "map", "and_then", "filter", "inputs", "outputs", "witnesses", "deref", "copied", "unwrap_or_default",
-         "{deref}", "{map}", "policies", "{inputs}", "{outputs}", "{witnesses}", "{get}", "ok_or_else", "{into}", "{from}", "inc_pc"}
+NOISE = {"branch", "from_residual", "into", "from", "get", "ok_or", "map", "map_err", "and_then", "filter", "inputs", "outputs", "witnesses", "deref", "copied",
+         "unwrap_or_default", "policies", "ok_or_else", "inc_pc", "try_from", "try_into"}
 GTF = r"^fuel_vm::interpreter::metadata::GTFInput::<'_, Tx>::get_transaction_field$"
 
 
 def arm_facts(F, n, f, cfg, blocks, closures):
+    """(domain callees, PanicReasons, adds-tx-offset) of one selector arm. Calls and errors inside closures created in
+    the arm count like inline ones, and Option/Result/iterator plumbing is not recorded, so `x.map(|w| ofs + w).ok_or(E)?`
+    and `let w = x.ok_or(E)?; ofs + w` have the same row."""
     cs, errs, cl = [], set(), []
     ptr = False
-    for bb in sorted(blocks):
-        tb = f["bbs"][bb]["t"]
-        if tb[0] == "call" and "def" in tb[1]:
-            cs.append(callee_name(tb[1]).rsplit("::", 1)[-1])
-            for a in tb[2]:
-                d = describe(f, a, depth=3)
-                m = re.search(r"closure#(\d+)", d)
-                if m:
-                    cl.append(int(m.group(1)))
-                if a[0] == "k" and "fn" in a[1]:
-                    fnn = callee_name(a[1]["fn"])
-                    cs.append("fn:" + fnn.rsplit("::", 2)[-2].split("<")[0].rsplit(" ", 1)[-1] + "::" + fnn.rsplit("::", 1)[-1])
-                if d in ("arg:self.tx_offset", "var:ofs"):
-                    ptr = True
-        for s in f["bbs"][bb]["s"]:
-            if s[0] != "=":
-                continue
-            if s[2][0] == "agg" and s[2][1].endswith("PanicReason"):
-                errs.add(s[2][2])
-            if s[2][0] == "agg" and s[2][1].endswith("PolicyType"):
-                cs.append("PolicyType::" + s[2][2])
-            if s[2][0] == "agg" and "closure#" in s[2][1]:
-                cl.append(int(re.search(r"closure#(\d+)", s[2][1]).group(1)))
-                if any(describe(f, o, depth=3) in ("arg:self.tx_offset", "var:ofs") for o in s[2][3]):
-                    ptr = True
+
+    def is_ofs(fn_, o):
+        return re.search(r"^arg:self\.tx_offset$|^arg:#1\.\w*ofs\w*$|^arg:#1\.0$", describe(fn_, o, depth=10)) is not None
+
+    def scan(fn_, bbs_, top):
+        nonlocal ptr
+        for bb in bbs_:
+            tb = fn_["bbs"][bb]["t"]
+            if tb[0] == "call" and "def" in tb[1]:
+                cs.append(callee_name(tb[1]).rsplit("::", 1)[-1])
+                for a in tb[2]:
+                    d = describe(fn_, a, depth=3)
+                    m = re.search(r"closure#(\d+)", d)
+                    if m and top:
+                        cl.append(int(m.group(1)))
+                    if a[0] == "k" and "fn" in a[1]:
+                        fnn = callee_name(a[1]["fn"])
+                        cs.append("fn:" + fnn.rsplit("::", 2)[-2].split("<")[0].rsplit(" ", 1)[-1] + "::" + fnn.rsplit("::", 1)[-1])
+                    if top and is_ofs(fn_, a):
+                        ptr = True
+            for s in fn_["bbs"][bb]["s"]:
+                if s[0] != "=":
+                    continue
+                if s[2][0] == "agg" and s[2][1].endswith("PanicReason"):
+                    errs.add(s[2][2])
+                if s[2][0] == "agg" and s[2][1].endswith("PolicyType"):
+                    cs.append("PolicyType::" + s[2][2])
+                if s[2][0] == "agg" and "closure#" in s[2][1] and top:
+                    cl.append(int(re.search(r"closure#(\d+)", s[2][1]).group(1)))
+                    if any(is_ofs(fn_, o) for o in s[2][3]):
+                        ptr = True
+    scan(f, sorted(blocks), True)
     for k in sorted(set(cl)):
         cf = closures.get(n + "::{closure#%d}" % k)
         if cf:
-            for i, c, args, *_ in calls(cf):
-                cs.append("{" + callee_name(c).rsplit("::", 1)[-1] + "}")
-    cs = sorted(set(c for c in cs if c not in NOISE))
+            scan(cf, [i for i, bb in enumerate(cf["bbs"]) if not bb.get("cu")], False)
+    cs = sorted(set(c for c in cs if c not in NOISE and c not in PLUMBING_TOKENS))
     return cs, sorted(errs), ptr
 
 
@@ -103,7 +112,7 @@ def run(F, rep, tier, allfacts):
     sw = None
     for b in sorted(cfg.reach):
         t = f["bbs"][b]["t"]
-        if t[0] == "switch" and len(t[2]) > 40 and describe(f, t[1], depth=6) == "disc(var:args)":
+        if t[0] == "switch" and len(t[2]) > 40 and describe(f, t[1], depth=6).startswith("disc("):
             sw = (b, t)
             break
     if sw is None:
@@ -187,8 +196,8 @@ def run(F, rep, tier, allfacts):
                     yield k, sel, v
     for k, sel, v in each(lambda s: re.match(r"^Input(Coin|Contract|Message)\w+", s) and s not in ("InputContractOutputIndex",)):
         kind = re.match(r"^Input(Coin|Contract|Message)", sel).group(1).lower()
-        rep.check("{is_%s}" % kind in v["calls"] and v["errors"] == ["InputNotFound"], "GTF-consistency", "%s:filter=is_%s;error=InputNotFound" % (sel, kind), where, "arm %s" % v)
-    OK_ = {"OutputCoin": {"{is_coin}"}, "OutputContractCreated": {"{is_contract_created}"}, "OutputContract": {"{is_contract}"}}
+        rep.check("is_%s" % kind in v["calls"] and v["errors"] == ["InputNotFound"], "GTF-consistency", "%s:filter=is_%s;error=InputNotFound" % (sel, kind), where, "arm %s" % v)
+    OK_ = {"OutputCoin": {"is_coin"}, "OutputContractCreated": {"is_contract_created"}, "OutputContract": {"is_contract"}}
     for k, sel, v in each(lambda s: re.match(r"^Output(ContractCreated|Contract|Coin)\w+", s)):
         kind = re.match(r"^(OutputContractCreated|OutputContract|OutputCoin)", sel).group(1)
         werr = ["InputNotFound"] if sel == "OutputContractInputIndex" else ["OutputNotFound"]
@@ -274,7 +283,9 @@ def run(F, rep, tier, allfacts):
     # scan must set owner = None and stop (a later input must not be able to re-seed it)
     rep.rule("OWNER-scan", "owner scan: first mismatch sets owner = None and leaves the loop; owner is assigned Some only from None")
     ne = [(i, [describe(f, a, depth=6) for a in args]) for i, c, args, *_ in calls(f) if callee_matches(c, r"cmp::PartialEq(<.*>)?>?::ne$|PartialEq::ne$") and any("input_owner(" in describe(f, a, depth=6) for a in args)]
-    okown = len(ne) == 1 and any(re.match(r"^var:owner@Some", a) for a in ne[0][1])
+    mown = [re.match(r"^var:(\w+)@Some", a) for a in ne[0][1]] if len(ne) == 1 else []
+    oname = next((m.group(1) for m in mown if m), None)
+    okown = len(ne) == 1 and oname is not None
     if okown:
         from fvlib.core import bool_consumers
         bc = bool_consumers(f, ne[0][0])
@@ -285,7 +296,7 @@ def run(F, rep, tier, allfacts):
             heads = [d for d in dom[ne[0][0]] if f["bbs"][d]["t"][0] == "call" and callee_matches(f["bbs"][d]["t"][1], r"Iterator>?::next$")]
             heads.sort(key=lambda d: len(dom[d]), reverse=True)
             dn = __import__("fvlib.core", fromlist=["dbg_name"]).dbg_name
-            none_set = [i for i, j, p, rv, line in assignments(f) if len(p) == 1 and dn(f, p[0]) == "owner" and i in cfg.reachable_incl(differs) and
+            none_set = [i for i, j, p, rv, line in assignments(f) if len(p) == 1 and dn(f, p[0]) == oname and i in cfg.reachable_incl(differs) and
                         ((rv[0] == "agg" and rv[2] == "None") or (rv[0] == "use" and describe(f, rv[1], depth=4).startswith("agg:Option::None")))]
             okown = bool(heads) and bool(none_set) and heads[0] not in cfg._reach_from([differs], avoid=set()) and heads[0] in cfg.reachable_incl(same)
     rep.check(okown, "OWNER-scan", "init_inner:mismatch->None+break", where, "owner comparisons %s" % ne)
@@ -301,15 +312,24 @@ def run(F, rep, tier, allfacts):
     ok = len(rets) == 1 and rets[0][0] == "saturating_add" and re.search(r"checked_mul\(.*max_inputs\(arg:self\).*BALANCE_ENTRY_SIZE", rets[0][1][0]) is not None and add == [72]
     rep.check(ok and be == 40, "IMG-init", "tx_offset=max_inputs*BALANCE_ENTRY_SIZE+32+8+32", "%s:%s" % (f["file"], f["line"]), "tx_offset returns %s; BALANCE_ENTRY_SIZE=%s" % (rets, be))
     n, f = F.find(r"^fuel_vm::interpreter::metadata::<impl fuel_vm::interpreter::Interpreter<M, S, Tx, Ecal, V>>::get_transaction_field$", ["fuel_vm"], one=True)
-    cs = [(callee_name(c).rsplit("::", 1)[-1], [describe(f, x, depth=8) for x in args]) for i, c, args, *_ in calls(f) if callee_matches(c, r"checked_sub$")]
-    rd = [[describe(f, x, depth=12) for x in args] for i, c, args, *_ in calls(f) if callee_matches(c, r"MemoryInstance::read_bytes$")]
-    ok = cs == [("checked_sub", ["call:tx_offset(arg:self)", "const:8"])] and len(rd) == 1 and "checked_sub(call:tx_offset(arg:self),const:8)" in rd[0][1]
+    fam = family(F, n, "fuel_vm::interpreter::metadata::")
+    cs, rd, passes = [], [], False
+    for gn, g in fam.items():
+        for i, c, args, *_ in calls(g):
+            if callee_matches(c, r"checked_sub$"):
+                cs.append((gn, [describe(g, x, depth=8) for x in args]))
+            if callee_matches(c, r"MemoryInstance::read_bytes$"):
+                rd.append([describe(g, x, depth=12) for x in args])
+            if callee_name(c) in fam and any("call:tx_offset(arg:self)" in describe(g, x, depth=8) for x in args):
+                passes = True
+    okc = len(cs) == 1 and cs[0][1][1] == "const:8" and (cs[0][1][0] == "call:tx_offset(arg:self)" or (cs[0][0] != n and re.match(r"^arg:\w+$", cs[0][1][0]) and passes))
+    ok = okc and len(rd) == 1 and re.search(r"checked_sub\((call:tx_offset\(arg:self\)|arg:\w+),const:8\)", rd[0][1]) is not None
     rep.check(ok, "IMG-init", "GTF:tx_size-read-at-tx_offset-8", "%s:%s" % (f["file"], f["line"]), "checked_sub %s read %s" % (cs, rd))
-    cl = [cf for cn, cf in F.find(r"init_inner::\{closure#\d+\}.*$", ["fuel_vm"], required=False)]
+    n2, f2 = F.find(r"^fuel_vm::interpreter::initialization::<impl fuel_vm::interpreter::Interpreter<M, S, Tx, Ecal, V>>::init_inner$", ["fuel_vm"], one=True)
     own = set()
-    for cf in cl:
-        for i, c, args, *_ in calls(cf):
+    for gn, g in family(F, n2, "fuel_vm::interpreter::initialization::").items():
+        for i, c, args, *_ in calls(g):
             nm = callee_name(c).rsplit("::", 1)[-1]
             if nm in ("tx_offset", "owner_offset", "inputs_offset_at", "saturating_add"):
                 own.add(nm)
-    rep.check(own == {"tx_offset", "owner_offset", "inputs_offset_at", "saturating_add"}, "IMG-init", "owner_ptr=tx_offset+inputs_offset_at(i)+owner_offset", where, "owner pointer closures call %s" % sorted(own))
+    rep.check(own == {"tx_offset", "owner_offset", "inputs_offset_at", "saturating_add"}, "IMG-init", "owner_ptr=tx_offset+inputs_offset_at(i)+owner_offset", where, "owner pointer computation (init_inner, its closures and private helpers) calls %s" % sorted(own))
